@@ -33,7 +33,7 @@ func (r hbReact) String() string {
 
 type hbExtra struct {
 	At   time.Duration
-	Kind string // pong (unsolicited) | msgUp | msgDown | wrongDir | upgrade (polling sessions: a conformant upgrade to websocket / webtransport)
+	Kind string // pong (unsolicited) | msgUp | msgDown | wrongDir | upgrade (polling sessions: a conformant upgrade to websocket / webtransport) | vanish (websocket / webtransport: the peer is gone without a trace, a half-open connection: it neither reads nor sends from now on; the server's writer blocks)
 }
 
 func (e hbExtra) String() string { return fmt.Sprintf("%s@%v", e.Kind, e.At) }
@@ -121,7 +121,7 @@ func genC07(rt *rapid.T) c07Case {
 	ne := rapid.IntRange(0, 3).Draw(rt, "nExtras")
 	horizon := int64((c.I+c.T)*time.Duration(c.Rounds)/time.Millisecond) + 1
 	for i := 0; i < ne; i++ {
-		kinds := []string{"msgUp", "msgDown", "msgUp", "msgDown", "wrongDir"}
+		kinds := []string{"msgUp", "msgDown", "msgUp", "msgDown", "wrongDir", "vanish"}
 		if c.Rev == 4 {
 			kinds = append(kinds, "pong", "pong")
 		}
@@ -139,10 +139,14 @@ func genC07(rt *rapid.T) c07Case {
 
 // hbClient abstracts the carrier.
 type hbClient struct {
-	s *c06Sess
+	s        *c06Sess
+	vanished *bool // the peer is gone without a trace: it neither reads nor sends any more
 }
 
 func (h hbClient) send(p Pkt) {
+	if h.vanished != nil && *h.vanished {
+		return
+	}
 	switch {
 	case h.s.pc != nil:
 		h.s.pc.StartPost([]Pkt{p}, false)
@@ -227,7 +231,8 @@ func runC07(c c07Case) (fail string, stats map[string]bool) {
 	if s == nil {
 		return "harness: handshake failed: " + why, stats
 	}
-	cl := hbClient{s}
+	vanished := false
+	cl := hbClient{s, &vanished}
 	sr := w.Get(s.open.Sid)
 	t0 := sr.ConnAt // the session opened at this instant
 	now := func() time.Duration { return w.now() }
@@ -352,7 +357,7 @@ func runC07(c c07Case) (fail string, stats map[string]bool) {
 			if f := check("ping"); f != "" {
 				return f, stats
 			}
-			if c.Carrier != "polling" || true {
+			if !vanished {
 				recv := s.recv()
 				if len(recv) == 0 || recv[len(recv)-1].Type != tPing {
 					return fmt.Sprintf("@%v ping created but the client's last packet is %v", now(), recv), stats
@@ -360,6 +365,10 @@ func runC07(c c07Case) (fail string, stats map[string]bool) {
 			}
 			r := c.Reacts[pingIdx%len(c.Reacts)]
 			pingIdx++
+			if vanished {
+				r = hbReact{Kind: "never"}
+				stats["ping-to-a-vanished-peer"] = true
+			}
 			switch r.Kind {
 			case "pong", "dup":
 				if r.Delay == 0 {
@@ -453,6 +462,22 @@ func runC07(c c07Case) (fail string, stats map[string]bool) {
 				if c.Rev == 3 {
 					uncertainFrom, deadline = deadline, -1
 				}
+			case "extra:vanish":
+				if s.pc != nil || vanished {
+					break
+				}
+				// from now on the peer neither reads nor sends; the next write of the server blocks (window full)
+				stats["peer-vanished"] = true
+				vanished = true
+				if s.wc != nil {
+					s.wc.StopReading()
+				} else {
+					s.tc.StopReading()
+				}
+				w.AppSend(sr, msgT("a write that blocks"), nil, false, 0)
+				Settle()
+				// whatever the client had planned does not happen
+				pend = nil
 			case "extra:wrongDir":
 				stats["wrong-direction"] = true
 				hb := len(observeHB(sr).heartbeats)
@@ -507,12 +532,43 @@ func runC07(c c07Case) (fail string, stats map[string]bool) {
 	if !closed {
 		stats["stayed-open"] = true
 	}
+	if vanished {
+		if closed && expReason == "ping timeout" {
+			// "silent peers are closed": the session and, within the bounded wait for the batch its writer still
+			// holds (30 s), the connection: a vanished peer must not keep connection and writer for ever
+			stats["vanished-peer-timed-out"] = true
+			time.Sleep(30*time.Second + time.Millisecond)
+			Settle()
+			down := false
+			if s.wc != nil {
+				if conn := s.wc.conn(); conn != nil {
+					conn.r.mu.Lock()
+					down = conn.r.eof || conn.r.werr != nil
+					conn.r.mu.Unlock()
+				}
+			} else {
+				s.tc.Pump()
+				_, reset := s.tc.Bidi.WriteCancelled()
+				down = s.tc.SessionClosed || reset
+			}
+			if !down {
+				return fmt.Sprintf("the session of a vanished peer closed (ping timeout) at %v, but %v later the server still has not closed the connection (its writer is blocked in a write to the peer)", expCloseAt, now()-expCloseAt), stats
+			}
+		}
+		// in the end the network stack gives up on the connection
+		if s.wc != nil {
+			s.wc.NetworkGivesUp()
+		} else {
+			s.tc.NetworkGivesUp()
+		}
+		Settle()
+	}
 	return "", stats
 }
 
 func TestC07Heartbeat(t *testing.T) {
 	col := NewCollector("TestC07Heartbeat",
-		"rapid: pingInterval/pingTimeout on a millisecond grid (1ms..60s), carrier polling/websocket/webtransport, revision 4 or 3, a client policy (per ping: pong after 0, 1ms, T-1ms, T/2, T+1ms, random; duplicate pong; never; pong issued by another goroutine at exactly the deadline; revision 3: client ping gaps incl. I+T-1ms and I+T+1ms), 0-3 extra actions off the millisecond grid (unsolicited pong, message up/down, heartbeat in the wrong direction, on polling sessions a conformant upgrade to websocket/webtransport while no ping is outstanding, after which the timeline continues on the new transport; on revision 3 the upgrade cancels the deadline until the next client ping, as the statement excludes); executed event by event in a virtual-time bubble next to a reference timeline; oracle: instants of server pings, of the close event and its reason equal the timeline exactly (a pong at exactly the deadline may go either way), never closed while pongs are in time, wrong direction => close(transport error) at that instant and no heartbeat event, nothing happens after the close. non-trivial: >=2 heartbeat rounds and a reaction within 1ms of a deadline, or a wrong-direction/unsolicited/duplicate heartbeat").Use(t)
+		"rapid: pingInterval/pingTimeout on a millisecond grid (1ms..60s), carrier polling/websocket/webtransport, revision 4 or 3, a client policy (per ping: pong after 0, 1ms, T-1ms, T/2, T+1ms, random; duplicate pong; never; pong issued by another goroutine at exactly the deadline; revision 3: client ping gaps incl. I+T-1ms and I+T+1ms), 0-3 extra actions off the millisecond grid (unsolicited pong, message up/down, heartbeat in the wrong direction, on websocket/webtransport sessions the peer vanishing without a trace (it neither reads nor sends any more, the server's writer blocks in its write; the session must close at exactly the deadline all the same, and the server must have closed the connection 30 s later), on polling sessions a conformant upgrade to websocket/webtransport while no ping is outstanding, after which the timeline continues on the new transport; on revision 3 the upgrade cancels the deadline until the next client ping, as the statement excludes); executed event by event in a virtual-time bubble next to a reference timeline; oracle: instants of server pings, of the close event and its reason equal the timeline exactly (a pong at exactly the deadline may go either way), never closed while pongs are in time, wrong direction => close(transport error) at that instant and no heartbeat event, nothing happens after the close. non-trivial: >=2 heartbeat rounds and a reaction within 1ms of a deadline, or a wrong-direction/unsolicited/duplicate heartbeat").Use(t)
 	rapid.Check(t, func(rt *rapid.T) {
 		c := genC07(rt)
 		journal("C07 %v", c)
@@ -535,5 +591,25 @@ func TestC07Heartbeat(t *testing.T) {
 			rt.Fatalf("%v: %s", c, clipStr(res.Leak, 1500))
 		}
 	})
-	col.RequireClasses(t, "timeout", "stayed-open", "within-1ms-of-deadline", "pong-at-deadline-race", "wrong-direction", "unsolicited-pong", "duplicate-pong", "v3-ping", "v3-ping-after-upgrade", "upgraded-to-websocket", "upgraded-to-webtransport", "other-traffic", "carrier.polling", "carrier.websocket", "carrier.webtransport")
+	col.RequireClasses(t, "peer-vanished", "vanished-peer-timed-out", "timeout", "stayed-open", "within-1ms-of-deadline", "pong-at-deadline-race", "wrong-direction", "unsolicited-pong", "duplicate-pong", "v3-ping", "v3-ping-after-upgrade", "upgraded-to-websocket", "upgraded-to-webtransport", "other-traffic", "carrier.polling", "carrier.websocket", "carrier.webtransport")
+}
+
+const sigVanishedPeer = "closed-session-keeps-connection-and-writer-of-a-peer-that-stopped-reading"
+
+// TestC07VanishedPeerFinding: deterministic demonstration of the repaired defect (a regression of an earlier
+// repair, see known-findings.txt).
+func TestC07VanishedPeerFinding(t *testing.T) {
+	col := NewCollector("TestC07VanishedPeerFinding", "deterministic: websocket / webtransport session (interval 100ms, timeout 50ms), the peer vanishes without a trace 10ms after the handshake (it neither reads nor sends any more; the server's next write blocks); oracle of TestC07Heartbeat: close(ping timeout) at exactly 150ms, and 30s later the server has closed the connection. every case is non-trivial").Use(t)
+	for _, car := range []string{"websocket", "webtransport"} {
+		c := c07Case{I: 100 * time.Millisecond, T: 50 * time.Millisecond, Carrier: car, Rev: 4, Reacts: []hbReact{{Kind: "pong"}},
+			Extras: []hbExtra{{At: 10*time.Millisecond + 100*time.Microsecond, Kind: "vanish"}}, Rounds: 2}
+		var fail string
+		res := bubble(t, func() { fail, _ = runC07(c) })
+		res.rethrow()
+		if fail == "" && res.Leak != "" {
+			fail = "bubble: " + clipStr(res.Leak, 300)
+		}
+		col.Case(c.String(), true, map[string]any{"case": c.String(), "result": clipStr(fail, 300)}, "peer-vanished")
+		demoFinding(t, col, "C07", sigVanishedPeer, fail != "", car+": "+clipStr(fail, 400))
+	}
 }
